@@ -141,12 +141,23 @@ def _(v):
 
 
 def _pm(layout):
-    @harness("C12", "_parse_multiplicity." + layout, functions=[PA + ":_parse_multiplicity"], kind="shape-bounded", samples=0, max_paths=500)
+    # samples > 0: besides the symbolic run the real function is run natively on sampled n1, n2, n3 against the same obligations, so that a wrong
+    # reading is still found on sampled inputs when the code splits the term in a way the engine has no symbolic model of (the symbolic run is then
+    # reported as unsupported = undecided), and a counter-model of the symbolic run is replayed on the real code
+    @harness("C12", "_parse_multiplicity." + layout, functions=[PA + ":_parse_multiplicity"], kind="shape-bounded", samples=25, max_paths=500)
     def _(v):
         import z3
-        from chempy.util.parsing import _parse_multiplicity
+        from chempy.util import parsing
+        _parse_multiplicity = getattr(parsing, "_parse_multiplicity", None)
+        if _parse_multiplicity is None:
+            # the helper these obligations are written for does not exist under that name (inlined / renamed): nothing is generated, which is
+            # reported as undecided; the clause is still decided on concrete lines by the data harnesses and the bounded stand-ins
+            v.note("no chempy.util.parsing._parse_multiplicity on this tree: symbolic obligations of the term reader not generated")
+            return
         n1, n2, n3 = v.int("n1", lo=0, hi=1000), v.int("n2", lo=0, hi=1000), v.int("n3", lo=0, hi=1000)
-        s = lambda n, key, star=False: Sym(z3.Concat(z3.IntToStr(n.e), z3.StringVal((" * " if star else " ") + key)))
+        # the text of one term: str(n) + ' ' + key or str(n) + ' * ' + key (in the native sampled mode n is a plain int)
+        s = lambda n, key, star=False: (Sym(z3.Concat(z3.IntToStr(n.e), z3.StringVal((" * " if star else " ") + key))) if isinstance(n, Sym)
+                                        else "%d%s%s" % (n, " * " if star else " ", key))
         if layout == "space":
             strings = [s(n1, "H2O"), "Na+", s(n2, "(NH4)2SO4")]
             exp = {"H2O": n1, "Na+": 1, "(NH4)2SO4": n2}
@@ -172,7 +183,11 @@ for _l in ("space", "star", "repeated"):
 
 @harness("C12", "_parse_multiplicity.concrete_forms", functions=[PA + ":_parse_multiplicity"], kind="data")
 def _(v):
-    from chempy.util.parsing import _parse_multiplicity as pm
+    from chempy.util import parsing
+    from chempy.chemistry import Reaction
+    # the private term reader if it is there; otherwise (inlined / renamed) the same term lists are read through the public surface as the
+    # reactant side of a line
+    pm = getattr(parsing, "_parse_multiplicity", None) or (lambda strings: dict(Reaction.from_string(" + ".join(strings) + " -> ZZ", checks=()).reac))
     got = _try(lambda: (pm(["2.5 A", "1e1 B"]), type(pm(["2.5 A"])["A"])))
     v.prove("decimal_coefficient_is_float", got == ({"A": 2.5, "B": 10.0}, float), detail=repr(got))
     got = _try(lambda: (pm(["3 A"]), type(pm(["3 A"])["A"])))
@@ -185,7 +200,16 @@ def _(v):
 
 @harness("C12", "_is_inactive_group.exhaustive", functions=[PA + ":_is_inactive_group"], kind="data")
 def _(v):
-    from chempy.util.parsing import _is_inactive_group as f
+    from chempy.util import parsing
+    from chempy.chemistry import Reaction
+    f = getattr(parsing, "_is_inactive_group", None)
+    if f is None:
+        # the private predicate is an aid: without it (inlined / renamed) the exhaustive enumeration has nothing to be run on (its two obligations are
+        # then not generated = undecided); the clause itself - a key that merely begins with a bracket is active, a term enclosed by one matching pair
+        # is an inactive group - is decided on the public surface with the same four terms (hand-written readings)
+        got = _try(lambda: [(lambda r: (dict(r.reac), dict(r.inact_reac)))(Reaction.from_string(t + " + A -> Z", checks=())) for t in ("(NH4)2SO4", "(CH3)3N(aq)", "(2 H2O)", "((NH4)2SO4)")])
+        v.prove("bracket_initial_keys_are_active", got == [({"(NH4)2SO4": 1, "A": 1}, {}), ({"(CH3)3N(aq)": 1, "A": 1}, {}), ({"A": 1}, {"H2O": 2}), ({"A": 1}, {"(NH4)2SO4": 1})], detail=repr(got))
+        return
 
     def spec(t):   # enclosed by ONE matching pair: first '(' is closed exactly by the last character
         if len(t) < 2 or t[0] != "(" or t[-1] != ")":
@@ -207,11 +231,13 @@ def _(v):
         for tup in itertools.product("()a ", repeat=L):
             t = "".join(tup)
             n += 1
-            if bool(f(t)) != spec(t):
+            got = _try(lambda: bool(f(t)))   # (an exception of the predicate is a wrong answer, not a checker error)
+            if got is not spec(t):
                 bad.append(t)
     v.prove("all_strings_up_to_length_7", not bad, "first %s" % bad[:5])
     v.prove("count", n == sum(4 ** L for L in range(8)))
-    v.prove("bracket_initial_keys_are_active", not f("(NH4)2SO4") and not f("(CH3)3N(aq)") and f("(2 H2O)") and f("((NH4)2SO4)"))
+    got = _try(lambda: [bool(f(t)) for t in ("(NH4)2SO4", "(CH3)3N(aq)", "(2 H2O)", "((NH4)2SO4)")])
+    v.prove("bracket_initial_keys_are_active", got == [False, False, True, True], detail=repr(got))
 
 
 @harness("C12", "to_reaction.placement", functions=[PA + ":to_reaction", "chempy.chemistry:Reaction.from_string"], kind="shape-bounded", samples=0)
@@ -224,28 +250,47 @@ def _(v):
     def pm(v_, strings, substance_keys=None):
         seen.append((tuple(strings), substance_keys))
         return {"PM:" + "|".join(strings): 1}
-    v.contract(parsing._parse_multiplicity, "_parse_multiplicity", None, pm)
+    if getattr(parsing, "_parse_multiplicity", None) is not None:
+        v.contract(parsing._parse_multiplicity, "_parse_multiplicity", None, pm)
     cls = v.choice("cls", [Reaction, Equilibrium])
     arrow = "->" if cls is Reaction else "="
     line = "2 A + (B) + (NH4)2SO4 %s  C + (3 D) + (E); None" % arrow
     r = v.call(cls.from_string, line, None, False, checks=())
-    v.prove("active_reactants", list(r.reac) == ["PM:2 A|(NH4)2SO4"])
-    v.prove("inactive_reactants", list(r.inact_reac) == ["PM:B"])
-    v.prove("active_products", list(r.prod) == ["PM:C"])
-    v.prove("inactive_products", list(r.inact_prod) == ["PM:3 D|E"])
+    # the stand-in's answers show which texts went to which map. The modular form is a proof aid: when the helper is not called at all (inlined or
+    # renamed) the stand-in is never asked and the interpreter has read the line with the code as it is - the expectation is then the hand-written
+    # reading of that same line
+    if seen:
+        want = [{"PM:2 A|(NH4)2SO4": 1}, {"PM:B": 1}, {"PM:C": 1}, {"PM:3 D|E": 1}]
+    else:
+        want = [{"A": 2, "(NH4)2SO4": 1}, {"B": 1}, {"C": 1}, {"D": 3, "E": 1}]
+    v.prove("active_reactants", dict(r.reac) == want[0], detail=repr(r.reac))
+    v.prove("inactive_reactants", dict(r.inact_reac) == want[1], detail=repr(r.inact_reac))
+    v.prove("active_products", dict(r.prod) == want[2], detail=repr(r.prod))
+    v.prove("inactive_products", dict(r.inact_prod) == want[3], detail=repr(r.inact_prod))
     v.prove("allowed_keys_forwarded", all(sk is None for _, sk in seen))
     other = "=" if arrow == "->" else "->"
     out = v.run(cls.from_string, "A %s B" % other, None, False, checks=())
     v.prove("missing_arrow_token_rejected", out.raised(ValueError))
-    seen.clear()
-    v.call(cls.from_string, "A %s B" % arrow, "A B", False, checks=())
-    # the allowed keys reach the membership test as a collection of the two keys - never as the string itself (substring test, F-C12c); the
-    # container type (list / tuple / set) and the number of helper calls are not part of the property (the four PM: obligations pin the placement)
-    is_coll = lambda sk, want: not isinstance(sk, (str, bytes)) and sk is not None and set(sk) == want
-    v.prove("string_of_keys_is_split", bool(seen) and all(is_coll(sk, {"A", "B"}) for _, sk in seen), detail=repr(seen))
-    seen.clear()
-    v.call(cls.from_string, "A %s A" % arrow, "A", False, checks=())
-    v.prove("string_with_a_single_key_is_a_list_of_one_key", bool(seen) and all(is_coll(sk, {"A"}) for _, sk in seen), detail=repr(seen))
+    # allowed keys given as ONE STRING stand for the blank-separated keys in it - never for the characters / substrings of the string (F-C12c). The
+    # property says that an unknown key is rejected when allowed keys are given, not WHERE the membership test sits (in the helper, or in the caller
+    # after the helper has parsed), so the two obligations are stated on the outcome with the REAL helper (the stand-in above lives in the interpreter
+    # only; these are native calls) instead of on what reaches the helper. Expected readings are hand-written: (reac, prod, inact_reac, inact_prod)
+    def outcome(text, keys):
+        got = _try(lambda: (lambda r: (dict(r.reac), dict(r.prod), dict(r.inact_reac), dict(r.inact_prod)))(cls.from_string(text.replace("->", arrow), keys, False, checks=())))
+        return "refused" if isinstance(got, _Raised) and isinstance(got.ex, ValueError) else got
+
+    def decided(cases):
+        got = [(text, keys, outcome(text, keys)) for text, keys, _ in cases]
+        return [g[2] for g in got] == [want for _, _, want in cases], repr([g for g, c in zip(got, cases) if g[2] != c[2]][:3])
+    # several keys in the string: each of them is accepted; a key that is only a piece of one of them, or of the whole string, is refused on any
+    # side and in an inactive group ('B C' is a substring of 'AB CD' but cannot be written as a key at all: keys have no blanks)
+    ok, det = decided([("A -> B", "A B", ({"A": 1}, {"B": 1}, {}, {})), ("2 AB + (CD) -> 3 * CD", "AB CD", ({"AB": 2}, {"CD": 3}, {"CD": 1}, {})),
+                       ("B -> CD", "AB CD", "refused"), ("AB -> C", "AB CD", "refused"), ("AB -> CD + (D)", "AB CD", "refused"), ("AB + (2 A) -> CD", "AB CD", "refused")])
+    v.prove("string_of_keys_is_split", ok, detail=det)
+    # a string without a blank is ONE key
+    ok, det = decided([("A -> A", "A", ({"A": 1}, {"A": 1}, {}, {})), ("AB -> 2 AB + (AB)", "AB", ({"AB": 1}, {"AB": 2}, {}, {"AB": 1})),
+                       ("A -> B", "AB", "refused"), ("AB -> B", "AB", "refused"), ("A -> AB", "AB", "refused"), ("AB -> AB + (B)", "AB", "refused"), ("AB + (2 A) -> AB", "AB", "refused")])
+    v.prove("string_with_a_single_key_is_a_list_of_one_key", ok, detail=det)
 
 
 @harness("C12", "to_reaction.parameters", functions=[PA + ":to_reaction"], kind="data")
